@@ -5,6 +5,7 @@ mod noisehs;
 mod psk;
 mod ptx;
 mod stream;
+mod tlscert;
 
 fn main() {
     vcommon::quiet_panics();
@@ -14,6 +15,7 @@ fn main() {
         "ptx" => ptx::main(&a),
         "psk" => psk::main(&a),
         "noisehs" => noisehs::main(&a),
+        "tlscert" => tlscert::main(&a),
         m => {
             eprintln!("unknown mode {m}");
             std::process::exit(2)
